@@ -21,11 +21,13 @@
 #include <stdarg.h>
 #include <stdint.h>
 #include <sys/syscall.h>
+#include <time.h>
 
 extern "C" {
 int sch_self(void);                   // simulated thread id of the caller, -1 if not simulated
 void sch_blocked(int tid, int what);  // yield, marking the caller as blocked (demoted under PCT)
 int sch_over_budget(void);
+uint32_t sch_steps(void);
 long __real_syscall(long number, ...);
 void __tsan_acquire(void*) __attribute__((weak));
 void __tsan_release(void*) __attribute__((weak));
@@ -272,4 +274,26 @@ extern "C" int pthread_cond_broadcast(pthread_cond_t* c) {
   if (__interceptor_pthread_cond_broadcast) return __interceptor_pthread_cond_broadcast(c);
   static auto real = next_symbol<int (*)(pthread_cond_t*)>("pthread_cond_broadcast");
   return real(c);
+}
+
+// ---- clock ---------------------------------------------------------------------------------------------------
+// ada reads no clock at the pinned commit.  Should a change introduce one (a wall-clock bound on the wait, say), a
+// simulated thread must read SIMULATED time, otherwise a run is no longer a function of its seed: one scheduler step is
+// one microsecond, starting from a fixed instant that looks like a machine with 100,000 s of uptime.  Defined under the
+// real name for the same reason as the condition-variable functions (std::chrono::*::now() lives in libstdc++.so).
+extern "C" {
+int __interceptor_clock_gettime(clockid_t, struct timespec*) __attribute__((weak));
+volatile uint32_t sim_clock_reads = 0;
+}
+extern "C" int clock_gettime(clockid_t clk, struct timespec* ts) {
+  if (sch_self() >= 0 && ts != nullptr) {
+    sim_clock_reads = sim_clock_reads + 1;
+    const uint64_t ns = 100000ull * 1000000000ull + uint64_t(sch_steps()) * 1000ull;
+    ts->tv_sec = time_t(ns / 1000000000ull);
+    ts->tv_nsec = long(ns % 1000000000ull);
+    return 0;
+  }
+  if (__interceptor_clock_gettime) return __interceptor_clock_gettime(clk, ts);
+  static auto real = next_symbol<int (*)(clockid_t, struct timespec*)>("clock_gettime");
+  return real(clk, ts);
 }
